@@ -17,6 +17,7 @@ import (
 
 	"verif/internal/gen"
 	"verif/internal/h"
+	"verif/internal/pkt"
 	"verif/internal/reg"
 	"verif/internal/tlvwalk"
 )
@@ -435,6 +436,117 @@ func c13Run(c *h.Ctx) {
 			c13One(c, id, m, sub, k)
 		}
 		_ = mi
+	}
+	// packets produced by the packet API (signature fields present, which the plain model
+	// Encode never produces) through the generated Data / Interest parsers
+	nSigned := c.Pick(150, 3000)
+	pkt.GetKeys()
+	for k := 0; k < nSigned; k++ {
+		id := fmt.Sprintf("signed#%d", k)
+		var cs *pkt.Case
+		for {
+			cs = pkt.Gen(r)
+			if cs.Signer != "none" {
+				break
+			}
+		}
+		sub := rand.New(rand.NewSource(r.Int63()))
+		if !c.Case(id) {
+			continue
+		}
+		c13SignedPacket(c, id, cs, sub)
+	}
+}
+
+// c13SignedPacket: unknown elements inserted at every boundary inside a signed Data / Interest
+// built by the packet API must be skipped by the generated parser without changing any field.
+func c13SignedPacket(c *h.Ctx, id string, cs *pkt.Case, r *rand.Rand) {
+	c.Eval(1)
+	mid := "std/ndn/spec_2022.Data"
+	if cs.Kind == "interest" {
+		mid = "std/ndn/spec_2022.Interest"
+	}
+	var m *reg.Model
+	for _, x := range reg.Models {
+		if x.ID() == mid {
+			m = x
+		}
+	}
+	if m == nil {
+		c.Inconclusive("model " + mid + " not in the registry")
+		return
+	}
+	var built *pkt.Built
+	var err error
+	if pi := h.Guard(func() { built, err = cs.Build() }); pi != nil || err != nil || built == nil {
+		return // construction problems belong to C03/C12
+	}
+	b := built.Bytes
+	outer, werr := tlvwalk.Walk(b, 0, len(b), nil, true)
+	if werr != nil || len(outer) != 1 {
+		return
+	}
+	inner := b[outer[0].ValOff:outer[0].End]
+	tops, werr := tlvwalk.Walk(inner, 0, len(inner), nil, true)
+	if werr != nil {
+		return
+	}
+	desc := map[string]any{"case": cs.Describe(), "model": mid, "inner_wire": h.Hex(inner)}
+	parse := func(buf []byte, ic bool) (any, error, *h.PanicInfo) {
+		var out any
+		var perr error
+		pi := h.Guard(func() { out, perr = m.Parse(enc.NewBufferReader(append([]byte{}, buf...)), ic) })
+		return out, perr, pi
+	}
+	base, berr, bpi := parse(inner, false)
+	if bpi != nil || berr != nil || base == nil {
+		c.Violation("C13:signed-packet-not-parsed:"+mid, id, fmt.Sprintf("generated parser does not accept the value of a packet built by the packet API (err=%v)", berr), desc)
+		return
+	}
+	used := c13UsedTypes(m)
+	bounds := []int{0}
+	for _, n := range tops {
+		bounds = append(bounds, n.End)
+	}
+	for _, pos := range bounds {
+		posClass := "middle"
+		if pos == 0 {
+			posClass = "first"
+		} else if pos == len(inner) {
+			posClass = "last"
+		}
+		vl := []int{0, 1, 2, 7, 40}[r.Intn(5)]
+		pay := make([]byte, vl)
+		r.Read(pay)
+		for _, crit := range []bool{false, true} {
+			cands := nonCritCands
+			if crit {
+				cands = critCands
+			}
+			t := c13Pick(used, cands, r)
+			if t == 0 {
+				continue
+			}
+			mut := append(append(append([]byte{}, inner[:pos]...), tlvwalk.TLV(t, pay)...), inner[pos:]...)
+			out, perr, pi := parse(mut, crit)
+			d := map[string]any{"case": desc, "inserted_type": t, "inserted_value": h.Hex(pay), "at": pos, "critical_ignored": crit}
+			kind := "noncritical"
+			if crit {
+				kind = "critical-ignored"
+			}
+			switch {
+			case pi != nil:
+				c.Violation("C13:panic:parse-unknown:"+mid+":"+pi.Frame+":"+pi.Class, id, "parser panicked with an unknown element inserted into a signed packet: "+pi.Value, d)
+			case perr != nil:
+				c.Violation("C13:"+kind+"-rejected:"+mid+":signed:"+posClass, id, fmt.Sprintf("unknown element (type %d) at offset %d of a signed packet makes parsing fail: %v", t, pos, perr), d)
+			default:
+				if df := c13Equal(reflect.ValueOf(base).Elem(), reflect.ValueOf(out).Elem(), m.Name); df != "" {
+					c.Violation("C13:"+kind+"-changes-fields:"+mid+":signed:"+posClass, id, fmt.Sprintf("unknown element (type %d) at offset %d of a signed packet changes decoded fields: %s", t, pos, df), d)
+				}
+			}
+			c.Count("signed_packet_insertions", 1)
+			c.Distinct(mid + "|signed-insert|" + posClass + "|" + kind)
+		}
 	}
 }
 
